@@ -54,17 +54,51 @@ class _Capture:
 
     def __enter__(self):
         from bumpver import vcs
+        import subprocess as _sp
         self._vcs = vcs
-        self._orig = vcs.sp.check_output
+        self._orig = {n: getattr(vcs.sp, n) for n in ("check_output", "run", "call", "check_call", "Popen")}
 
         def fake(cmd_parts, **kw):
             self.calls.append(list(cmd_parts))
             return self.output
+
+        def fake_run(cmd_parts, **kw):
+            # whichever subprocess entry point the code uses: nothing is ever executed for real by this adapter
+            self.calls.append(list(cmd_parts))
+            return _sp.CompletedProcess(cmd_parts, 0, stdout=self.output, stderr=b"")
+
+        def fake_call(cmd_parts, **kw):
+            self.calls.append(list(cmd_parts))
+            return 0
+
+        class FakePopen(object):
+            def __init__(inner, cmd_parts, **kw):
+                self.calls.append(list(cmd_parts))
+                inner.returncode = 0
+                inner.stdout = None
+                inner.stderr = None
+
+            def communicate(inner, *a, **k):
+                return self.output, b""
+
+            def wait(inner, *a, **k):
+                return 0
+
+            def __enter__(inner):
+                return inner
+
+            def __exit__(inner, *a):
+                return False
         vcs.sp.check_output = fake
+        vcs.sp.run = fake_run
+        vcs.sp.call = fake_call
+        vcs.sp.check_call = fake_call
+        vcs.sp.Popen = FakePopen
         return self
 
     def __exit__(self, *a):
-        self._vcs.sp.check_output = self._orig
+        for n, f in self._orig.items():
+            setattr(self._vcs.sp, n, f)
 
 
 def vcs_argv(vcs_name, cmd, kw):
@@ -75,6 +109,8 @@ def vcs_argv(vcs_name, cmd, kw):
             api(cmd, **kw)
         except (ValueError, KeyError, IndexError) as ex:
             return {"err": exc_name(ex)}
+    if not cap.calls:
+        return {"err": "no-subprocess-call"}
     return {"ok": cap.calls[0]}
 
 
